@@ -30,6 +30,7 @@ func runC03(c *Ctx) {
 	c.Rule("C03.R4", "the reply is produced only by the worker phase machine (who-may-call chain)", 9)
 	c.Rule("C03.R5", "timers armed on every end-of-request path, global timeout never zero, timers stopped before recycle", 8)
 	c.Rule("C03.R6", "every acting phase re-checks through processError", 10)
+	c.Rule("C03.R7", "wake-up token: confined one-slot channel, non-blocking send, drained before every re-entry of the phase machine", 5)
 	c.NotDecided = append(c.NotDecided, "bounded completion time itself (liveness)", "that cleanStream is eventually reached for every request", "behaviour under concrete interleavings")
 	c.Assumptions = append(c.Assumptions, "sync/atomic semantics", "utils.Timer fires its callback at most once after Stop returns false")
 
@@ -40,7 +41,7 @@ func runC03(c *Ctx) {
 	nacc := 0
 	check := func(pkgp, typSuffix string, fields map[string]bool, ctorOK func(fn *ssa.Function) bool) {
 		for _, fn := range c.PkgFuncs(pkgp) {
-			forEachInstr(fn, true, func(f *ssa.Function, in ssa.Instruction) {
+			forEachInstr(fn, false, func(f *ssa.Function, in ssa.Instruction) {
 				fa, ok := in.(*ssa.FieldAddr)
 				if !ok {
 					return
@@ -171,7 +172,7 @@ func runC03(c *Ctx) {
 	clr := 0
 	badClr := []string{}
 	for _, fn := range c.PkgFuncs(pkg) {
-		forEachInstr(fn, true, func(f *ssa.Function, in ssa.Instruction) {
+		forEachInstr(fn, false, func(f *ssa.Function, in ssa.Instruction) {
 			call, ok := in.(*ssa.Call)
 			if !ok {
 				return
@@ -374,6 +375,147 @@ func runC03(c *Ctx) {
 	})
 	if n < 10 {
 		c.Unresolved("C03.R6", fmt.Sprintf("phase actions in receive (found %d)", n))
+	}
+	c03Notify(c, pkg)
+}
+
+// c03Notify (R7): the wake-up token of the phase machine.
+// downStream.notify is a one-slot channel: producers (upstream receive/reset, downstream reset, filter handlers) post a
+// token after changing state, the worker blocks in waitNotify and then re-reads the state through processError. The
+// token may also be left behind when the worker notices the state change by polling (processError without waiting).
+// Necessary for "exactly one terminal outcome": (a) the channel is touched only by send/clean/wait helpers, (b) the send
+// never blocks a producer and the buffer holds exactly one token, (c) every re-entry of the phase machine drains a stale
+// token before it can wait again - otherwise the wait after a retry returns at once with no response present, the
+// machine runs off its end without a reply and the real response is dropped.
+func c03Notify(c *Ctx, pkg string) {
+	isNotifyChan := func(v ssa.Value) bool {
+		_, f, _, ok := loadedField(v)
+		return ok && f == "notify"
+	}
+	// (a) confinement
+	allowed := map[string]bool{"sendNotify": true, "cleanNotify": true, "waitNotify": true}
+	var outside []string
+	nsel := 0
+	for _, fn := range c.PkgFuncs(pkg) {
+		forEachInstr(fn, false, func(f *ssa.Function, in ssa.Instruction) {
+			touch := false
+			switch x := in.(type) {
+			case *ssa.Select:
+				for _, st := range x.States {
+					if isNotifyChan(st.Chan) {
+						touch = true
+					}
+				}
+			case *ssa.Send:
+				touch = isNotifyChan(x.Chan)
+			case *ssa.UnOp:
+				touch = x.Op == token.ARROW && isNotifyChan(x.X)
+			case *ssa.Call:
+				if b, ok := x.Call.Value.(*ssa.Builtin); ok && b.Name() == "close" && isNotifyChan(x.Call.Args[0]) {
+					touch = true
+				}
+			}
+			if touch {
+				nsel++
+				if !allowed[f.Name()] {
+					outside = append(outside, f.Name())
+				}
+			}
+		})
+	}
+	sort.Strings(outside)
+	c.Check("C03.R7", "pkg/proxy.downStream.notify:confined", token.NoPos, len(outside) == 0 && nsel >= 3, fmt.Sprintf("%d channel operations, all in sendNotify/cleanNotify/waitNotify", nsel), "the wake-up channel is used outside its three helpers: "+strings.Join(outside, ","))
+	// (b) send and clean are non-blocking selects; the channel buffers one token
+	for _, name := range []string{"sendNotify", "cleanNotify"} {
+		fn := c.M(pkg, "downStream", name)
+		if fn == nil {
+			c.Unresolved("C03.R7", "downStream."+name)
+			continue
+		}
+		ok := false
+		for _, in := range instrsWhere(fn, func(in ssa.Instruction) bool { _, ok := in.(*ssa.Select); return ok }) {
+			sel := in.(*ssa.Select)
+			if !sel.Blocking && len(sel.States) == 1 && isNotifyChan(sel.States[0].Chan) {
+				ok = true
+			}
+		}
+		bad := instrsWhere(fn, func(in ssa.Instruction) bool {
+			switch x := in.(type) {
+			case *ssa.Send:
+				return true
+			case *ssa.UnOp:
+				return x.Op == token.ARROW
+			case *ssa.Select:
+				return x.Blocking
+			}
+			return false
+		})
+		c.Check("C03.R7", funcKey(fn)+":non-blocking", fn.Pos(), ok && len(bad) == 0, "select with default on the notify channel", name+" can block: producers run on IO/timer goroutines and must never wait for the worker")
+	}
+	if fn := c.F(pkg, "newActiveStream"); fn == nil {
+		c.Unresolved("C03.R7", "proxy.newActiveStream")
+	} else {
+		ok := false
+		forEachInstr(fn, false, func(_ *ssa.Function, in ssa.Instruction) {
+			if st, isS := in.(*ssa.Store); isS {
+				if _, f, _, okf := fieldAddrInfo(st.Addr); okf && f == "notify" {
+					if mc, isM := st.Val.(*ssa.MakeChan); isM {
+						if n, isC := constInt(mc.Size); isC && n == 1 {
+							ok = true
+						}
+					}
+				}
+			}
+		})
+		c.Check("C03.R7", funcKey(fn)+":one-slot", fn.Pos(), ok, "notify = make(chan struct{}, 1)", "the wake-up channel is not a one-slot buffered channel (an unbuffered one loses wake-ups posted while the worker is busy; a larger one accumulates stale tokens)")
+	}
+	// (c) drain before every re-entry
+	on := c.M(pkg, "downStream", "OnReceive")
+	recv := c.M(pkg, "downStream", "receive")
+	if on == nil || recv == nil {
+		c.Unresolved("C03.R7", "downStream.OnReceive / receive")
+		return
+	}
+	nre := 0
+	forEachInstr(on, true, func(f *ssa.Function, in ssa.Instruction) {
+		call, ok := in.(*ssa.Call)
+		if !ok || call.Common().StaticCallee() != recv {
+			return
+		}
+		nre++
+		key := funcKey(on) + fmt.Sprintf(":drain-before-reentry#%d", nre)
+		var body map[*ssa.BasicBlock]bool
+		for _, bd := range naturalLoops(f) {
+			if bd[call.Block()] && (body == nil || len(bd) < len(body)) {
+				body = bd
+			}
+		}
+		drained := false
+		for _, cs := range callsIn(f, false, func(cc *ssa.CallCommon) bool { return methodName(cc) == "cleanNotify" }) {
+			if instrDominates(cs.Instr, call) && (body == nil || body[cs.Instr.Block()]) {
+				drained = true
+			}
+		}
+		if !drained {
+			// or: receive itself drains before it can wait
+			waits := callsIn(recv, false, func(cc *ssa.CallCommon) bool { return methodName(cc) == "waitNotify" })
+			cleans := callsIn(recv, false, func(cc *ssa.CallCommon) bool { return methodName(cc) == "cleanNotify" })
+			all := len(waits) > 0 && len(cleans) > 0
+			for _, w := range waits {
+				okw := false
+				for _, cl := range cleans {
+					if instrDominates(cl.Instr, w.Instr) {
+						okw = true
+					}
+				}
+				all = all && okw
+			}
+			drained = all
+		}
+		c.Check("C03.R7", key, call.Pos(), drained, "a stale wake-up is drained in every iteration before the phase machine runs", "the phase machine is re-entered (retry / re-match) without draining a stale wake-up token: the next wait returns at once with no response present, the request ends without a reply and the real response is dropped")
+	})
+	if nre == 0 {
+		c.Unresolved("C03.R7", "call of downStream.receive in OnReceive")
 	}
 }
 
